@@ -299,7 +299,25 @@ def guard_discharges(ctx):
     # receive_packet: expect / Sub after the frame guard (C04/frame-guard proves dominance)
     rk = "passage_protocol::connection::{impl#0}::receive_packet::{closure#0}::{closure#0}"
     out[(rk, "call", "Result::expect")] = ("frame-guard", "u64::try_from(length) after `length >= 1` (C04/frame-guard/dominates)")
-    out[(rk, "assert", "Overflow(Sub)")] = ("frame-guard", "`length as u64 − 1` after `length >= 1` (C04/frame-guard/dominates)")
+    # the only subtraction allowed to rely on the frame guard is `length − 1` (minuend = the frame length, subtrahend = constant 1)
+    rb = ctx.prog.lib_bodies.get(rk)
+    sub_ok = "frame-guard"
+    why_sub = "`length as u64 − 1` after `length >= 1` (C04/frame-guard/dominates)"
+    if rb is not None:
+        ran = ctx.an(rb)
+        for blk in rb.blocks:
+            if blk.cleanup or blk.term.kind != "assert" or blk.term.j["msg"] != "Overflow(Sub)" or rb.is_noise(blk.term) or "tokio::select" in " ".join(rb.chain(blk.term)):
+                continue
+            for i, st in enumerate(blk.stmts):
+                if st.kind == "assign" and st.rv.k == "binop" and st.rv.j["op"].startswith("Sub"):
+                    e = ran.rvalue_expr(st.rv, (blk.idx, i), 0)
+                    a, c = flow.strip(e[2]), flow.strip(e[3])
+                    from_len = bool(find_all(a, lambda y: y[0] == "select_out")) and bool(calls_in(a, "read_varint")) and not find_all(a, lambda y: y[0] == "binop")
+                    if not (from_len and c[0] == "const" and c[2] == 1):
+                        sub_ok = False
+                        why_sub = ("subtraction %s − %s is not covered by the frame guard (it only proves length >= 1): the difference can underflow "
+                                   "— panic in debug builds, take(huge) in release" % (render(a, maxdepth=3), render(c, maxdepth=3)))
+    out[(rk, "assert", "Overflow(Sub)")] = (sub_ok, why_sub)
     # poll_write: buf[..written.min(buf.len())]
     pk = "passage_protocol::crypto::stream::{impl#2}::poll_write"
     pb = ctx.prog.lib_bodies.get(pk)
